@@ -19,17 +19,6 @@ open scoped ComplexOrder
 section cert
 variable {n : Nat}
 
-theorem toM_diag (v : Vec ℂ n) : (diag v).toM = diagonal (fun i => v.get i) := by
-  ext i j
-  by_cases h : i = j
-  · subst h; simp [diag]
-  · simp [diag, h]
-
-theorem frob2_eq_trace {m k : Nat} (A : Mat ℂ m k) : frob2 A = (A.toMᴴ * A.toM).trace := by
-  simp only [frob2, fsum_eq_sum, Matrix.trace, Matrix.diag_apply, Matrix.mul_apply,
-    Matrix.conjTranspose_apply, Mat.toM_apply, conj_eq_star]
-  rw [Finset.sum_comm]
-
 /-- C17 `psdCert` soundness: if `M` is exactly Hermitian and the residual of the (float) eigen-decomposition
 with clipped eigenvalues has squared Frobenius norm `≤ ε²`, then `M + ε·1` is positive semidefinite —
 for ANY `V` (no unitarity of the eigenvector matrix is assumed), all sizes. -/
@@ -93,17 +82,6 @@ theorem povm_of_onb_physical (U : Matrix n n ℂ) (hU : U * Uᴴ = 1) :
 theorem gate_of_unitary_tp (U ρ : Matrix n n ℂ) (hU : Uᴴ * U = 1) : (U * ρ * Uᴴ).trace = ρ.trace := by
   rw [Matrix.trace_mul_cycle, hU, Matrix.one_mul]
 
-/-- Choi matrix `Σ_ij E_ij ⊗ Φ(E_ij)` of a map on matrices -/
-def choi (Φ : Matrix n n ℂ → Matrix n n ℂ) : Matrix (n × n) (n × n) ℂ :=
-  fun p q => Φ (Matrix.single p.1 q.1 1) p.2 q.2
-
-/-- Choi matrix of `ρ ↦ KρKᴴ` is the rank-one matrix `|vec K⟩⟩⟨⟨vec K|` -/
-theorem choi_conj (K : Matrix n n ℂ) :
-    choi (fun ρ => K * ρ * Kᴴ) = vecMulVec (fun p : n × n => K p.2 p.1) (star fun p : n × n => K p.2 p.1) := by
-  ext p q
-  simp [choi, vecMulVec_apply, Matrix.mul_apply, Matrix.single_apply, Matrix.conjTranspose_apply,
-    Finset.sum_mul, ite_and]
-
 /-- C17 `gate_of_unitary_physical` (CP): the Choi matrix of `ρ ↦ UρUᴴ` is PSD (for every `U`). -/
 theorem gate_of_unitary_choi_psd (U : Matrix n n ℂ) : (choi fun ρ => U * ρ * Uᴴ).PosSemidef := by
   rw [choi_conj]; exact posSemidef_vecMulVec_self_star _
@@ -146,9 +124,6 @@ end hamiltonian
 /-! ## the executable `hsOfUnitary` -/
 section hs
 variable {d : Nat}
-
-theorem trMul_eq_trace {k : Nat} (A C : Mat ℂ k k) : trMul A C = (A.toM * C.toM).trace := by
-  simp [trMul, fsum_eq_sum, Matrix.trace, Matrix.mul_apply]
 
 /-- C17 "unitary ↦ HS matrix is TP": for an orthonormal Hermitian basis with `B_0 = s·1` (`s` real) and a
 unitary `U`, the first row of the model's `hsOfUnitary B U` is `e₀`. -/
